@@ -46,12 +46,17 @@ admin_api {
   endpoint_name "alerts"
   pull { path "/a" }
 }
+"/crm" {
+  application "crm"
+  endpoint_name "sync"
+  pull { path "/c" }
+}
 "/other" {
   pull { path "/o" }
 }
 `
 
-var opFrontManaged = map[[2]string]string{{"billing", "invoice.created"}: "/billing", {"ops", "alerts"}: "/alerts"}
+var opFrontManaged = map[[2]string]string{{"billing", "invoice.created"}: "/billing", {"ops", "alerts"}: "/alerts", {"crm", "sync"}: "/crm"}
 
 func snapStore(st queue.Store) []jmsg {
 	var envs []queue.Envelope
@@ -175,7 +180,7 @@ func cmdOpFront(args []string) error {
 			id := fmt.Sprintf("m%02d", i)
 			ids = append(ids, id)
 			st := pick(r, []queue.State{queue.StateQueued, queue.StateQueued, queue.StateDead, queue.StateDead, queue.StateCanceled, queue.StateCanceled, queue.StateCanceled, queue.StateDelivered})
-			env := queue.Envelope{ID: id, Route: pick(r, []string{"/billing", "/billing", "/alerts", "/other", "/other"}), Target: "pull", State: st,
+			env := queue.Envelope{ID: id, Route: pick(r, []string{"/billing", "/billing", "/alerts", "/other", "/other", "/crm"}), Target: "pull", State: st,
 				ReceivedAt: base.Add(-time.Duration(r.intn(6)) * time.Minute).Add(time.Duration(pick(r, []int{0, 0, 250, 500, 750})) * time.Millisecond), Payload: []byte("x")}
 			if st == queue.StateDead {
 				env.DeadReason = "max_retries"
@@ -193,6 +198,9 @@ func cmdOpFront(args []string) error {
 
 		// the call
 		kind := pick(r, []string{"cancel_f", "requeue_f", "resume_f", "cancel_f", "requeue_f", "resume_f", "cancel", "requeue", "resume", "dlq_requeue", "dlq_delete", "publish", "publish", "publish"})
+		if via == "mcp-proxy-memory" && !lostAnswer && r.chance(12) {
+			kind = "publish3"
+		}
 		byFilter := strings.HasSuffix(kind, "_f")
 		argsM := map[string]interface{}{"reason": "verif"}
 		f := jfilter{}
@@ -212,6 +220,28 @@ func cmdOpFront(args []string) error {
 		}
 		var pubItems []pubItem
 		var pubPayload []map[string]interface{}
+		var pub3 []map[string]interface{}
+		var pub3Items []pubItem
+		if kind == "publish3" {
+			// ONE messages_publish call with items for three managed endpoints: the tool turns it into three Admin calls. With
+			// an id that already exists in the last group the call fails after the first two batches were accepted: none of
+			// its items may stay deliverable
+			groups := [][2]string{{"billing", "invoice.created"}, {"ops", "alerts"}, {"crm", "sync"}}
+			for i := len(groups) - 1; i > 0; i-- {
+				j := r.intn(i + 1)
+				groups[i], groups[j] = groups[j], groups[i]
+			}
+			dup := r.chance(65)
+			for gi, g := range groups {
+				id := fmt.Sprintf("p3-%d-%d", c, gi)
+				if dup && gi == len(groups)-1 {
+					id = ids[0] // already in the queue
+				}
+				payload := []byte(fmt.Sprintf("p3 %d/%d", c, gi))
+				pub3 = append(pub3, map[string]interface{}{"id": id, "application": g[0], "endpoint_name": g[1], "payload_b64": base64.StdEncoding.EncodeToString(payload)})
+				pub3Items = append(pub3Items, pubItem{ID: id, Route: opFrontManaged[g], Payload: hex.EncodeToString(payload)})
+			}
+		}
 		if kind == "publish" {
 			// 1-3 items for one selector: the unmanaged route, or a managed endpoint
 			if r.chance(50) {
@@ -306,7 +336,7 @@ func cmdOpFront(args []string) error {
 				delete(argsM, "target")
 			}
 			op.F = &f
-		} else if kind != "publish" {
+		} else if kind != "publish" && kind != "publish3" {
 			k := 1 + r.intn(4)
 			for i := 0; i < k; i++ {
 				id := pick(r, ids)
@@ -320,8 +350,11 @@ func cmdOpFront(args []string) error {
 
 		resp := jresp{T: "err"}
 		raw := ""
-		if kind == "publish" {
+		if kind == "publish" || kind == "publish3" {
 			delete(argsM, "ids")
+		}
+		if kind == "publish3" {
+			argsM["items"] = pub3
 		}
 		switch via {
 		case "mcp-sqlite", "mcp-proxy-memory":
@@ -356,7 +389,7 @@ func cmdOpFront(args []string) error {
 				argsM["items"] = items
 			}
 			tool := map[string]string{"cancel_f": "messages_cancel_by_filter", "requeue_f": "messages_requeue_by_filter", "resume_f": "messages_resume_by_filter",
-				"cancel": "messages_cancel", "requeue": "messages_requeue", "resume": "messages_resume", "dlq_requeue": "dlq_requeue", "dlq_delete": "dlq_delete", "publish": "messages_publish"}[kind]
+				"cancel": "messages_cancel", "requeue": "messages_requeue", "resume": "messages_resume", "dlq_requeue": "dlq_requeue", "dlq_delete": "dlq_delete", "publish": "messages_publish", "publish3": "messages_publish"}[kind]
 			mcpCfg := cfgPath
 			if via == "mcp-proxy-memory" {
 				mcpCfg = proxyCfgPath
@@ -452,6 +485,10 @@ func cmdOpFront(args []string) error {
 		if len(raw) > 300 {
 			raw = raw[:300]
 		}
+		if kind == "publish3" {
+			emit(map[string]interface{}{"k": "frontpub3", "case": c, "via": via, "items": pub3Items, "existing": ids[0], "resp": resp, "raw": raw, "before": before, "after": after})
+			continue
+		}
 		if kind == "publish" {
 			emit(map[string]interface{}{"k": "frontpub", "case": c, "via": via, "lostAnswer": lostAnswer, "items": pubItems, "selector": [2]string{app_, name}, "resp": resp, "raw": raw, "before": before, "after": after})
 			continue
@@ -466,7 +503,7 @@ func countResp(m map[string]interface{}, kind string) jresp {
 		v, ok := m[k].(float64)
 		return int(v), ok
 	}
-	key := map[string]string{"publish": "published", "cancel_f": "canceled", "requeue_f": "requeued", "resume_f": "resumed", "cancel": "canceled", "requeue": "requeued", "resume": "resumed",
+	key := map[string]string{"publish": "published", "publish3": "published", "cancel_f": "canceled", "requeue_f": "requeued", "resume_f": "resumed", "cancel": "canceled", "requeue": "requeued", "resume": "resumed",
 		"dlq_requeue": "requeued", "dlq_delete": "deleted"}[kind]
 	ch, ok := num(key)
 	mt, okm := num("matched")
